@@ -249,7 +249,8 @@ def scenarios(tier: str) -> tuple[list[C06Scenario], list[C06Scenario]]:
             if variant in ('foreign', 'foreign2', 'toggle', 'toggle-quiet') and d1 != ['perm'] and d2 != ['temp', 'ok']:
                 deep.append(sc)
     # F2: daemons and a sleeping timer
-    for reaction, backoff, timeout in itertools.product(['obeys', 'cancel', 'ignore'], [None, 2.0], [None, 3.0]):
+    for reaction, backoff, timeout in list(itertools.product(['obeys', 'cancel', 'ignore'], [None, 2.0], [None, 3.0])) + \
+            [('cancel', 3.0, 2.0), ('ignore', 3.0, 2.0), ('cancel', 2.0, 2.0)]:      # + a backoff not shorter than the timeout
         for exit_delay, d1 in itertools.product((0.0, 1.0) if reaction != 'ignore' else (0.0,), (None, ['ok'], ['temp', 'ok'])):
             handlers = [dict(id='dm', on='daemon', reaction=reaction, exit_delay=exit_delay,
                              cancellation_backoff=backoff, cancellation_timeout=timeout)]
